@@ -60,6 +60,36 @@ theorem C13_exec (fails : Nat → Bool) (acts : List Act) (hwf : ActsWf acts) :
       simp [decodeSpi, noDataWhileHigh, csAfter, isOkR] at this ⊢
       exact this
 
+/-- fault-free: the windows are exactly the actions, in order, with the requested lengths -/
+theorem C13_exact (acts : List Act) (hwf : ActsWf acts) :
+    ∀ (w : World) (reads : List (List Byte)),
+      decodeSpi (exec .spi noFaults w acts reads).1 = some (acts.map Act.acc) := by
+  induction acts with
+  | nil => intro w reads; simp [exec, decodeSpi]
+  | cons act rest ih =>
+    intro w reads
+    obtain ⟨h1, h2⟩ := ActsWf_cons hwf
+    cases act with
+    | wr a v e =>
+      have hb := bit7_clear a h1
+      simp only [exec, writeRegister_spi, noFaults_apply]
+      have := ih h2 { chip := chipIf true (chipIf true (w.chip.raw .csLow).1 (.spiWrite [BitVec.ofNat 8 a, v])) .csHigh,
+                      shadow := applyEff w.shadow a v e, idx := w.idx + 3 } reads
+      simp [decodeSpi, hb, this, Act.acc, toNat_ofNat_lt a h1]
+    | rd a n =>
+      have hb := bit7_set a h1
+      simp only [exec, readRegister_spi, noFaults_apply]
+      have := ih h2 { chip := chipIf true (chipIf true ((w.chip.raw .csLow).1.raw (.spiTransfer [BitVec.ofNat 8 a ||| 0x80#8, 0#8])).1
+                                (.spiTransfer (List.replicate n 0#8))) .csHigh,
+                      shadow := w.shadow, idx := w.idx + 4 }
+        (reads ++ [(((w.chip.raw .csLow).1.raw (.spiTransfer [BitVec.ofNat 8 a ||| 0x80#8, 0#8])).1.raw
+                          (.spiTransfer (List.replicate n 0#8))).2])
+      simp [decodeSpi, hb, this, Act.acc, low7 a h1]
+    | delay ms =>
+      simp only [exec]
+      have := ih h2 w reads
+      simp [decodeSpi, this, Act.acc]
+
 /-- every API call over SPI, any fault schedule (a call that fails for a reason other than
     the bus - rejected request, failed self test - has a fault-free journal, for which
     `C20_runOp` gives the released chip-select) -/
